@@ -233,7 +233,15 @@ impl TimeTrigger {
                     } else {
                         (other, one)
                     };
-                    return if earliest > after { earliest } else { latest };
+                    // The end of a repeated interval is reported as ambiguous too; its earlier
+                    // candidate is the instant of the change itself, where the clock shows the
+                    // start of the repeated interval, not `naive`.
+                    let shown = Local.from_utc_datetime(&earliest.naive_utc()).naive_local();
+                    return if shown == naive && earliest > after {
+                        earliest
+                    } else {
+                        latest
+                    };
                 }
                 LocalResult::None => naive += Duration::minutes(15),
             }
